@@ -303,7 +303,13 @@ func (cc *checkCtx) verifyOne(name string) {
 		}
 	}
 	res.Obligations = mine
-	rs := discharge(x, res, cc.workDir, cc.timeoutS)
+	noRetry := map[string]bool{}
+	for _, k := range cc.known {
+		if k.Status == "known" {
+			noRetry[k.Obligation] = true
+		}
+	}
+	rs := discharge(x, res, cc.workDir, cc.timeoutS, noRetry)
 	rep.Obligations = len(rs)
 	for _, r := range rs {
 		cc.nObl++
